@@ -201,7 +201,7 @@ func c02One(ws *pipe.Workspace, fam string, idx int64, s *lexref.Spec, L int, st
 // first rule followed by '!' so that it does not simply shadow the others):
 // every way ranges can nest, overlap, coincide with the remainder of a split
 // and be split again.
-func rangeAlgebraSpec(i int64, nr int, top rune) *lexref.Spec {
+func rangeAlgebraSpec(i int64, nr int, top rune, mult int) *lexref.Spec {
 	var rgs [][2]int
 	for lo := 'a'; lo <= top; lo++ {
 		for hi := lo; hi <= top; hi++ {
@@ -215,7 +215,13 @@ func rangeAlgebraSpec(i int64, nr int, top rune) *lexref.Spec {
 		k /= int64(len(rgs))
 		rx := lexref.Cls(&lexref.Class{Items: []lexref.ClassItem{lexref.Range(rg[0], rg[1])}})
 		if r == 0 {
-			rx = lexref.Cat(rx, lexref.Lit("!"))
+			// the first rule's range is written mult times (so that several NFA
+			// states own the same range), then '!'
+			parts := []*lexref.Rx{}
+			for k := 0; k < mult; k++ {
+				parts = append(parts, lexref.Cls(&lexref.Class{Items: []lexref.ClassItem{lexref.Range(rg[0], rg[1])}}))
+			}
+			rx = lexref.Cat(append(parts, lexref.Lit("!"))...)
 		}
 		s.Modes[0].Rules = append(s.Modes[0].Rules, lexref.Rule{K: lexref.RToken, Name: fmt.Sprintf("T%d", r+1), Rx: rx})
 	}
@@ -231,23 +237,25 @@ func rangeAlgebraSize(nr int, top rune) int64 {
 	return n
 }
 
-// rangeAlgebraFamilies: (rules, last point). Quick: 3 ranges over a..f and 4
-// over a..e; thorough: 4 over a..f and 5 over a..d.
-func rangeAlgebraFamilies(quick bool) [][2]int {
+// rangeAlgebraFamilies: (rules, last point, multiplicity of the first rule's
+// range). Quick: 3 ranges over a..f, 4 over a..e, and 4 over a..e with the first
+// range written three times; thorough: 4 over a..f, 5 over a..d, both also with
+// multiplicity.
+func rangeAlgebraFamilies(quick bool) [][3]int {
 	if quick {
-		return [][2]int{{3, 'f'}, {4, 'e'}}
+		return [][3]int{{3, 'f', 1}, {4, 'e', 1}, {4, 'e', 3}}
 	}
-	return [][2]int{{4, 'f'}, {5, 'd'}}
+	return [][3]int{{4, 'f', 1}, {5, 'd', 1}, {4, 'f', 3}, {5, 'd', 2}}
 }
 
 func rangeAlgebraRun(c *mc.Ctx, ws *pipe.Workspace, property string, inDomain func(c *lexref.Compiled) (bool, string)) {
 	for _, f := range rangeAlgebraFamilies(c.Quick()) {
-		nr, top := f[0], rune(f[1])
+		nr, top, mult := f[0], rune(f[1]), f[2]
 		for i := int64(0); i < rangeAlgebraSize(nr, top); i++ {
 			if !c.Mine(i) {
 				continue
 			}
-			for _, v := range c02One(ws, fmt.Sprintf("range-algebra-%d-%c", nr, top), i, rangeAlgebraSpec(i, nr, top), 1, &c.Stats, property, inDomain) {
+			for _, v := range c02One(ws, fmt.Sprintf("range-algebra-%d-%c-x%d", nr, top, mult), i, rangeAlgebraSpec(i, nr, top, mult), 1, &c.Stats, property, inDomain) {
 				c.Stats.Violate(v)
 			}
 		}
